@@ -11,9 +11,11 @@ TPut   == IsEvent("put")   /\ Put(Ev.a[1], Ev.v) /\ Ev.obs = ObsPut(Ev.a[1], Ev.
 TGet   == IsEvent("get")   /\ Get(Ev.a[1])  /\ Ev.obs = ObsGet(Ev.a[1])
 TFind  == IsEvent("find")  /\ Find(Ev.a[1]) /\ Ev.obs = ObsFind(Ev.a[1])
 TReset == IsEvent("reset") /\ Reset /\ Ev.obs.len = 0
-TFwd   == IsEvent("fwd")   /\ Fwd(Ev.a[1], Ev.a[2]) /\ Ev.obs = ObsFwd(Ev.a[1], Ev.a[2])
-TBwd   == IsEvent("bwd")   /\ Bwd(Ev.a[1], Ev.a[2]) /\ Ev.obs = ObsBwd(Ev.a[1], Ev.a[2])
-TSeekW == IsEvent("seekwalk") /\ SeekWalk(Ev.a[1], Ev.a[2], Ev.a[3]) /\ Ev.obs = ObsSeekWalk(Ev.a[1], Ev.a[2], Ev.a[3])
+\* whole scans are judged against the reference semantics directly (the monitor), not against the cursor-machine model
+TFwd   == IsEvent("fwd")   /\ Fwd(Ev.a[1], Ev.a[2]) /\ Ev.obs = Scan(m, Ev.a[1], Ev.a[2])
+TBwd   == IsEvent("bwd")   /\ Bwd(Ev.a[1], Ev.a[2]) /\ Ev.obs = Rev(Scan(m, Ev.a[1], Ev.a[2]))
+TSeekW == IsEvent("seekwalk") /\ SeekWalk(Ev.a[1], Ev.a[2], Ev.a[3])
+          /\ Ev.obs = Scan(m, IF Ev.a[3] > Ev.a[1] THEN Ev.a[3] ELSE Ev.a[1], Ev.a[2])
 TIter  == IsEvent("iter")  /\ NewIter(Ev.a[1], Ev.a[2])
 TMove(op, c2) == IsEvent(op) /\ Move(op, Ev.a, c2) /\ Ev.obs = CurObs(m, c2)
 TraceInit == TLCSet(1, 1) /\ Init /\ l = 1
@@ -23,5 +25,8 @@ TraceNext == \/ TPut \/ TGet \/ TFind \/ TReset \/ TFwd \/ TBwd \/ TSeekW \/ TIt
              \/ (l <= Len(TraceLog) /\ Ev.op = "seek" /\ TMove("seek", SeekOp(m, cur, Ev.a[1])))
 TraceSpec == TraceInit /\ [][TraceNext]_tvars
 HighWater == TLCSet(1, IF TLCGet(1) < l THEN l ELSE TLCGet(1))
+\* per-state monitor for recorded runs (WalksAreScans is established exhaustively by the MC configs; here every logged
+\* scan is compared with the reference Scan above, and single cursor steps with the neighbour rule)
+PropC09Trace == TypeOK /\ CursorInRange /\ StepIsNeighbour
 Accepted == PrintT(<<"HIGHWATER", TLCGet(1)>>) /\ TLCGet(1) = Len(TraceLog) + 1
 =============================================================================
